@@ -24,7 +24,9 @@ ENZ = ["BsaI", "BbsI", "BspQI", "BspD6I", "BccI", "FokI"]
 
 
 def bounds(tier):
-    return dict(enzymes=ENZ, k=[1, 2], per_record="{upper,lower}^(k+1)", regions="site, filler, overhangs, body, backbone, placeholder of each plasmid",
+    return dict(enzymes=ENZ, k=[1, 2], per_record="{upper,lower,alternating0,alternating1}^(k+1), each also in 4 container assignments (MutableSeq / annotated) and with the plasmids stored at 3 other rotations",
+                palindromic_junctions="per-letter family also on the bases with a palindromic first / last junction", half_lowered="error family: each record upper, lower or first half lower",
+                per_record_plain="{upper,lower}^(k+1)", regions="site, filler, overhangs, body, backbone, placeholder of each plasmid",
                 alternating="both phases, all records and one record", per_letter="both occurrences of each junction overhang, all 2^ov x 2^ov assignments (BsaI k=1; BspD6I k=2)",
                 errors="missing / duplicate / reverse-complementary / invalid vector x {upper,lower}^(k+1)",
                 typing="every concrete kit class x instances (own, siblings', with an extra cutter site) x {lower, alternating0, alternating1, lower-case prefix / suffix of k/6 of the record}")
